@@ -4,6 +4,34 @@
 
 package astdiff
 
+// A snapshot mirrors the value it is taken of (C08, C17): one child per element / field, a target for every
+// non-nil pointer or interface, nothing below comments, object links and scopes; the result is a fresh,
+// well-formed tree (the shape invariant the walkers rely on).
+//@ func snapshot(v, cmap) (val)
+//@   requires typing: gt("ObjectPtrType") != nil && gt("CommentGroupPtrType") != nil && gt("ScopePtrType") != nil && gt("PosType") != nil && gt("NodeType") != nil
+//@   requires typing: forall w RV {rtype(w)} :: (rtype(w) == gt("PosType") ==> rvIface(w).typ == dyn("go/token.Pos")) && (timplements(rtype(w), gt("NodeType")) ==> implements(rvIface(w), "go/ast.Node") && (kind(w) == 22 || kind(w) == 20))
+//@   requires typing: tkind(gt("ObjectPtrType")) == 22 && tkind(gt("CommentGroupPtrType")) == 22 && tkind(gt("ScopePtrType")) == 22 && tkind(gt("PosType")) != 25 && tkind(gt("PosType")) != 22 && tkind(gt("PosType")) != 20
+//@   requires typing: cmap == nil || cmapTyped(cmap)
+//@   unfold cmapTyped(cmap) ==> forall c int {cmap[rvIface(v)][c]} :: 0 <= c && c < len(cmap[rvIface(v)]) ==> cmap[rvIface(v)][c] != nil && cgTyped(cmap[rvIface(v)][c]) && allocated(cmap[rvIface(v)][c].List.arr)
+//@   decreases rvSize(v)
+//@   assigns nothing
+//@   ensures val != nil && fresh(val)
+//@   ensures val.t == rtype(v)
+//@   ensures vSize(val) == rvSize(v) + 1
+//@   ensures [C08,C17] the-snapshot-is-well-formed: wfV(val)
+//@   unfold-post wfV(val) == wfVBody(val)
+//@   unfold-post vSize(val) == rvSize(v) + 1
+//@   loop 0
+//@     invariant 0 <= i && fresh(children.arr) && len(children) == rlen(v)
+//@     invariant forall j int {children[j]} :: 0 <= j && j < i ==> children[j] != nil && fresh(children[j]) && wfV(children[j]) && vSize(children[j]) <= rvSize(v)
+//@     decreases rlen(v) - i
+//@   loop 1
+//@     invariant 0 <= i && fresh(children.arr) && len(children) == numfield(rtype(v))
+//@     invariant forall j int {children[j]} :: 0 <= j && j < i ==> children[j] != nil && fresh(children[j]) && wfV(children[j]) && vSize(children[j]) <= rvSize(v)
+//@     decreases numfield(rtype(v)) - i
+//@ func snapshot$1
+//@   inline
+
 //@ func Before(n, comments) (s)
 //@   trusted API-level summary (reflection walk building a fresh snapshot tree)
 //@   assigns nothing
@@ -18,7 +46,10 @@ package astdiff
 // comment that abuts the node counts as trailing).
 //@ func (f changeFinder) commentsFor(n) (before, after)
 //@   requires n != nil
-//@   requires typing: forall k int {n.Comments[k]} :: 0 <= k && k < len(n.Comments) ==> n.Comments[k] != nil
+//@   requires typing: forall k int {n.Comments[k]} :: 0 <= k && k < len(n.Comments) ==> n.Comments[k] != nil && cgTyped(n.Comments[k])
+//@   requires typing: forall k int {n.Comments[k]} :: 0 <= k && k < len(n.Comments) ==> allocated(n.Comments[k].List.arr)
+//@   ensures forall k int {before[k]} :: 0 <= k && k < len(before) ==> before[k] != nil
+//@   ensures forall k int {after[k]} :: 0 <= k && k < len(after) ==> after[k] != nil
 //@   unfold beforeLen(n.Comments, n.pos, 0) == 0 && afterLen(n.Comments, n.end, 0) == 0
 //@   assigns nothing
 //@   ensures [C17] leading-comments: len(before) == beforeLen(n.Comments, n.pos, len(n.Comments))
@@ -28,6 +59,11 @@ package astdiff
 //@     unfold afterLen(n.Comments, n.end, #k + 1) == afterLen(n.Comments, n.end, #k) + ite(cgPos(n.Comments[#k]) >= n.end, len(n.Comments[#k].List), 0)
 //@     invariant len(before) == beforeLen(n.Comments, n.pos, #k) && len(after) == afterLen(n.Comments, n.end, #k)
 //@     invariant (before.arr == 0 || fresh(before.arr)) && (after.arr == 0 || fresh(after.arr))
+//@     unfold cgTyped(n.Comments[#k]) == forall l int {n.Comments[#k].List[l]} :: 0 <= l && l < len(n.Comments[#k].List) ==> n.Comments[#k].List[l] != nil
+//@     invariant before.arr == 0 || after.arr == 0 || before.arr != after.arr
+//@     invariant forall k int {n.Comments[k]} :: 0 <= k && k < len(n.Comments) ==> n.Comments[k].List.arr <= old(wm)
+//@     invariant forall k int {before[k]} :: 0 <= k && k < len(before) ==> before[k] != nil
+//@     invariant forall k int {after[k]} :: 0 <= k && k < len(after) ==> after[k] != nil
 
 //@ func (f changeFinder) unchanged(from, to)
 //@   requires from != nil && to != nil
@@ -36,19 +72,86 @@ package astdiff
 
 //@ func (v *value) Pos
 //@   inline
+//@ func (v *value) Kind
+//@   inline
+//@ func (v *value) Type
+//@   inline
+//@ func (v *value) Len
+//@   inline
+//@ func (v *value) IsNil
+//@   inline
+//@ func (v *value) Interface
+//@   inline
 //@ func (v *value) End
 //@   inline
 
+//@ iface Changelog.Changed(start, end)
+//@   assigns nothing
 //@ func (f changeFinder) changed
+//@   requires typing: f.cl != nil
+//@   at call astdiff.Changelog.Changed assert [C17] the-current-region-is-reported-as-changed: arg1 == f.Region.Pos && arg2 == f.Region.End
 //@   assigns nothing
 
+// The comparison walks two snapshots of the same shape in step (C08): values of one type have the same
+// number of children, a non-nil pointer or interface has a target, a position field holds a position; the
+// recursion descends into strictly smaller snapshots; only the comment lists of the new snapshot are written.
 //@ func (f changeFinder) Walk(from, to) (equal)
+//@   requires typing: f.cl != nil
 //@   requires from != nil && to != nil
+//@   requires wfV(from) && wfV(to)
+//@   requires typing: gt("ObjectPtrType") != nil && gt("CommentGroupPtrType") != nil && gt("PosType") != nil && gt("NodeType") != nil
+//@   unfold wfV(from) == wfVBody(from)
+//@   unfold wfV(to) == wfVBody(to)
+//@   decreases 2 * vSize(from) + 1
 //@   assigns allof("F.S_astdiff_value.Comments")
 
+//@ func (f changeFinder) walkStruct(from, to) (equal)
+//@   requires typing: f.cl != nil
+//@   requires from != nil && to != nil && wfV(from) && wfV(to)
+//@   requires typing: gt("ObjectPtrType") != nil && gt("CommentGroupPtrType") != nil && gt("PosType") != nil && gt("NodeType") != nil
+//@   requires same-struct-type: from.t == to.t && tkind(from.t) == 25
+//@   unfold wfV(from) == wfVBody(from)
+//@   unfold wfV(to) == wfVBody(to)
+//@   decreases 2 * vSize(from)
+//@   assigns allof("F.S_astdiff_value.Comments")
+//@   loop 0
+//@     unfold wfV(from.Children[#k]) == wfVBody(from.Children[#k])
+//@     invariant fresh(starts.arr) && len(starts) == len(from.Children)
+//@   loop 1
+//@     invariant fresh(starts.arr) && len(starts) == len(from.Children) && fresh(ends.arr) && len(ends) == len(from.Children)
+//@     invariant i < len(from.Children)
+//@     decreases i + 1
+//@   loop 2
+//@     invariant fresh(starts.arr) && len(starts) == len(from.Children) && fresh(ends.arr) && len(ends) == len(from.Children)
+
+// The similarity measure used to align siblings: a walk over both snapshots in step, safe under the same
+// shape invariant as the change finder, descending into strictly smaller snapshots (C08).
 //@ func compareNodes(from, to) (r)
-//@   trusted similarity measure used only to align siblings (summarised)
+//@   requires from != nil && to != nil && wfV(from) && wfV(to)
+//@   requires typing: gt("ObjectPtrType") != nil && gt("PosType") != nil
+//@   unfold wfV(from) == wfVBody(from)
+//@   decreases 2 * vSize(from) + 2
 //@   assigns nothing
+
+//@ func (c *nodeComparer) Walk(from, to)
+//@   requires from != nil && to != nil && wfV(from) && wfV(to)
+//@   requires typing: gt("ObjectPtrType") != nil && gt("PosType") != nil
+//@   unfold wfV(from) == wfVBody(from)
+//@   unfold wfV(to) == wfVBody(to)
+//@   decreases 2 * vSize(from) + 1
+//@   assigns c.Result
+//@   loop 0
+//@     invariant fresh(results.arr) && len(results) == len(from.Children) && fresh(seen.arr) && len(seen) == len(from.Children)
+//@     invariant forall a int {results[a]} :: 0 <= a && a < #k ==> len(results[a]) == len(to.Children)
+//@     invariant forall a int {seen[a]} :: 0 <= a && a < #k ==> len(seen[a]) == len(to.Children)
+//@   loop 1
+//@     unfold esX(es, 0) == 0 && esY(es, 0) == 0
+//@     unfold esX(es, #k + 1) == esX(es, #k) + ite(consumesX(es[#k]), 1, 0)
+//@     unfold esY(es, #k + 1) == esY(es, #k) + ite(consumesY(es[#k]), 1, 0)
+//@     invariant i == esX(es, #k) && j == esY(es, #k) && 0 <= i && 0 <= j
+//@     invariant len(results) == len(from.Children) && forall a int {results[a]} :: 0 <= a && a < len(results) ==> len(results[a]) == len(to.Children)
+//@   loop 2
+//@     invariant true
 
 //@ func minPos
 //@   inline
@@ -58,23 +161,43 @@ package astdiff
 // Siblings are aligned by an edit script; an identical pair keeps its comment association, a modified
 // pair is walked inside its own region, a deleted sibling marks its own region as changed.
 //@ func (f changeFinder) walkSlice(from, to) (equal)
-//@   requires from != nil && to != nil
-//@   requires typing: forall k int {from.Children[k]} :: 0 <= k && k < len(from.Children) ==> from.Children[k] != nil
-//@   requires typing: forall k int {to.Children[k]} :: 0 <= k && k < len(to.Children) ==> to.Children[k] != nil
-//@   requires typing: forall k int {from.Children[k]} :: 0 <= k && k < len(from.Children) ==> forall c int {from.Children[k].Comments[c]} :: 0 <= c && c < len(from.Children[k].Comments) ==> from.Children[k].Comments[c] != nil
+//@   requires typing: f.cl != nil
+//@   requires from != nil && to != nil && wfV(from) && wfV(to)
+//@   requires typing: gt("ObjectPtrType") != nil && gt("CommentGroupPtrType") != nil && gt("PosType") != nil && gt("NodeType") != nil
+//@   requires same-list-type: from.t == to.t && tkind(from.t) == 23
+//@   unfold wfV(from) == wfVBody(from)
+//@   unfold wfV(to) == wfVBody(to)
+//@   decreases 2 * vSize(from)
 //@   at call (astdiff.changeFinder).unchanged assert [C17] identical-siblings-keep-their-comments: arg1 == from.Children[i] && arg2 == to.Children[j]
 //@   assigns allof("F.S_astdiff_value.Comments")
 //@   loop 0
+//@     invariant 0 <= i
 //@     decreases len(from.Children) - i
 //@   loop 1
-//@     invariant regions.arr != 0 || len(from.Children) == 0
+//@     unfold wfV(from.Children[#k]) == wfVBody(from.Children[#k])
+//@     unfold wfV(from.Children[#k - 1]) == wfVBody(from.Children[#k - 1])
+//@     unfold wfV(from.Children[#k + 1]) == wfVBody(from.Children[#k + 1])
+//@     invariant fresh(regions.arr) && len(regions) == len(from.Children)
 //@   loop 2
-//@     invariant 0 <= i && 0 <= j
-
-// The similarity callback of nodeComparer.Walk: diff.Difference may ask about the same pair several times;
-// the comparison itself (a walk over both subtrees) is made at most once per pair, otherwise the time
-// doubles with every level of nesting (C08: terminates promptly).
+//@     unfold esX(es, 0) == 0 && esY(es, 0) == 0
+//@     unfold esX(es, #k + 1) == esX(es, #k) + ite(consumesX(es[#k]), 1, 0)
+//@     unfold esY(es, #k + 1) == esY(es, #k) + ite(consumesY(es[#k]), 1, 0)
+//@     invariant i == esX(es, #k) && j == esY(es, #k) && 0 <= i && 0 <= j
+//@     invariant fresh(regions.arr) && len(regions) == len(from.Children)
+// The similarity callback handed to the edit-script computation.
+//@ func (f changeFinder) walkSlice$1(i, j) (r)
+//@   requires wfV(from) && wfV(to)
+//@   requires typing: gt("ObjectPtrType") != nil && gt("PosType") != nil
+//@   unfold wfV(from) == wfVBody(from)
+//@   unfold wfV(to) == wfVBody(to)
+//@   requires from != nil && to != nil && 0 <= i && i < len(from.Children) && 0 <= j && j < len(to.Children) && from.Children[i] != nil && to.Children[j] != nil
+//@   assigns nothing
 //@ func (c *nodeComparer) Walk$1(i, j) (r)
+//@   requires wfV(from) && wfV(to)
+//@   requires typing: gt("ObjectPtrType") != nil && gt("PosType") != nil
+//@   unfold wfV(from) == wfVBody(from)
+//@   unfold wfV(to) == wfVBody(to)
+//@   assigns elems(results[i]), elems(seen[i])
 //@   requires 0 <= i && i < len(seen) && i < len(results) && i < len(from.Children) && 0 <= j && j < len(seen[i]) && j < len(results[i]) && j < len(to.Children)
 //@   requires from != nil && to != nil && from.Children[i] != nil && to.Children[j] != nil
 //@   at call astdiff.compareNodes assert [C08] a-pair-is-compared-at-most-once: !seen[i][j]
